@@ -6,7 +6,10 @@
 (***************************************************************************)
 EXTENDS Paths
 
-RatAdd(a, b) == Frac(a[1] * b[2] + b[1] * a[2], a[2] * b[2])
+(* addition over the least common denominator (keeps intermediate values small: TLC integers are 32-bit) *)
+RatAdd(a, b) ==
+  LET gg == GCD(a[2], b[2])
+  IN Frac(a[1] * (b[2] \div gg) + b[1] * (a[2] \div gg), (a[2] \div gg) * b[2])
 RatMul(a, b) == Frac(a[1] * b[1], a[2] * b[2])
 
 SumRats(S, F(_)) ==
